@@ -218,25 +218,39 @@ def arc_radius_centre(check, L, rec, direction, label, d):
     if not items or len(items) < 2 or not all(isinstance(x, Num) for x in items[:2]):
         check.violation("R3", "arc_radius:centre-opaque", f"{label}: the centre handed to arc() is {centre!r}", d)
         return
-    pos = [v for k, v in rec["decisions"] if k == "cmp:Gt:arg.radius"] or [v > 0 for k, v in rec["decisions"] if k == "sign:arg.radius" and v is not None]
-    if not pos:
-        check.undecided("R3", f"{label}: sign of the radius never consulted")
-        return
+    # the sign of the requested radius, from whatever comparisons of it the path made (zero is rejected before)
+    facts_r = {k: v for k, v in rec["decisions"] if k in ("cmp:Gt:arg.radius", "cmp:Lt:arg.radius", "cmp:Eq:arg.radius", "sign:arg.radius")}
+    pos = []
+    if facts_r.get("cmp:Gt:arg.radius") is True or facts_r.get("sign:arg.radius") == 1:
+        pos = [True]
+    elif facts_r.get("cmp:Lt:arg.radius") is True or facts_r.get("sign:arg.radius") == -1:
+        pos = [False]
+    elif facts_r.get("cmp:Eq:arg.radius") is False and facts_r.get("cmp:Gt:arg.radius") is False:
+        pos = [False]
+    elif facts_r.get("cmp:Eq:arg.radius") is False and facts_r.get("cmp:Lt:arg.radius") is False:
+        pos = [True]
+    unconsulted = not pos
+    if unconsulted:
+        # the path never looks at the sign of the radius, so it stands for both signs; the two expected centres differ
+        # (opposite sides of the chord), hence whichever side the code picked is wrong for one of them
+        pos = [True, False]
     dtx, dty = T[0] - O[0], T[1] - O[1]
     dist = hyp(I, dtx, dty)
     r = Poly.sym("arg.radius")
-    absr = make_math("hypot")  # placeholder to keep import used
     from ..poly import even_app
     h = mk_app(I, "sqrt", [even_app("abs", r).pow(2) - (dist * Poly.const(0.5)).pow(2)])
-    s = Poly.const(1) if ((direction == "CLOCKWISE") == pos[0]) else Poly.const(-1)
-    # centre on the right of the chord for clockwise minor arcs (and by symmetry for the other three cases)
-    cx = (O[0] + T[0]) * Poly.const(0.5) + s * h * dty * dist.inverse() - O[0]
-    cy = (O[1] + T[1]) * Poly.const(0.5) - s * h * dtx * dist.inverse() - O[1]
-    if items[0].p == cx and items[1].p == cy:
-        check.ok("R3", f"{label}: centre on the {'right' if s == Poly.const(1) else 'left'} of the chord (radius {'>' if pos[0] else '<='} 0)")
-    else:
-        check.violation("R3", f"arc_radius:{direction}:centre-side", f"{label}, radius {'positive' if pos[0] else 'negative'}: arc() receives the centre offset "
-                        f"({items[0].p.key()[:120]}, ...); the {'minor' if pos[0] else 'major'} {direction.lower()} arc needs ({cx.key()[:120]}, ...)", d)
+    for is_pos in pos:
+        s = Poly.const(1) if ((direction == "CLOCKWISE") == is_pos) else Poly.const(-1)
+        # centre on the right of the chord for clockwise minor arcs (and by symmetry for the other three cases)
+        cx = (O[0] + T[0]) * Poly.const(0.5) + s * h * dty * dist.inverse() - O[0]
+        cy = (O[1] + T[1]) * Poly.const(0.5) - s * h * dtx * dist.inverse() - O[1]
+        if items[0].p == cx and items[1].p == cy:
+            if not unconsulted:
+                check.ok("R3", f"{label}: centre on the {'right' if s == Poly.const(1) else 'left'} of the chord (radius {'>' if is_pos else '<='} 0)")
+        else:
+            check.violation("R3", f"arc_radius:{direction}:centre-side", f"{label}, radius {'positive' if is_pos else 'negative'}"
+                            + (" (the path never looks at the sign of the radius)" if unconsulted else "") + f": arc() receives the centre offset "
+                            f"({items[0].p.key()[:120]}, ...); the {'minor' if is_pos else 'major'} {direction.lower()} arc needs ({cx.key()[:120]}, ...)", d)
 
 
 def direction_rules(check, L):
